@@ -33,6 +33,11 @@ type C10Case struct {
 	// second, independent split plan for the inverse direction
 	Inverse []int `json:"inverse"`
 	Via     string `json:"via"` // direct | stream
+	// IVSpare: the IV handed over is the first 16 bytes of a buffer with this much room behind it
+	IVSpare int `json:"iv_spare,omitempty"`
+	// PairFirst: both directions are created from the same IV slice before any data is processed
+	// (what bot/login.go and server/auth do); otherwise the inverse stream is created afterwards
+	PairFirst bool `json:"pair_first,omitempty"`
 }
 
 func seedBytes(seed *uint64, n int) []byte {
@@ -46,7 +51,13 @@ func seedBytes(seed *uint64, n int) []byte {
 func c10Check(c C10Case) *pbt.Violation {
 	seed := c.Seed
 	key := seedBytes(&seed, c.KeyLen)
-	iv := seedBytes(&seed, 16)
+	ivVal := seedBytes(&seed, 16)
+	ivBuf := make([]byte, 16+c.IVSpare)
+	for i := range ivBuf {
+		ivBuf[i] = 0x77
+	}
+	copy(ivBuf, ivVal)
+	iv := ivBuf[:16] // cap(iv) = 16 + IVSpare
 	total := 0
 	for _, cl := range c.Calls {
 		total += cl.N
@@ -62,7 +73,15 @@ func c10Check(c C10Case) *pbt.Violation {
 	} else {
 		impl = CFB8.NewCFB8Encrypt(blk, iv)
 	}
-	want := rc.New(blk, iv, c.Decrypt).Process(msg)
+	var inv cipher.Stream
+	if c.PairFirst {
+		if c.Decrypt {
+			inv = CFB8.NewCFB8Encrypt(blk, iv)
+		} else {
+			inv = CFB8.NewCFB8Decrypt(blk, iv)
+		}
+	}
+	want := rc.New(blk, ivVal, c.Decrypt).Process(msg)
 	var got []byte
 	if c.Via == "stream" {
 		// through cipher.StreamReader with a fragmenting source, as net.Conn drives it
@@ -128,11 +147,12 @@ func c10Check(c C10Case) *pbt.Violation {
 			"%s keylen=%d decrypt=%v: first difference at byte %d of %d (call lengths %v)", c.Via, c.KeyLen, c.Decrypt, i, len(want), callLens(c.Calls))
 	}
 	// inverse direction under an independent split plan returns the message
-	var inv cipher.Stream
-	if c.Decrypt {
-		inv = CFB8.NewCFB8Encrypt(blk, iv)
-	} else {
-		inv = CFB8.NewCFB8Decrypt(blk, iv)
+	if !c.PairFirst {
+		if c.Decrypt {
+			inv = CFB8.NewCFB8Encrypt(blk, iv)
+		} else {
+			inv = CFB8.NewCFB8Decrypt(blk, iv)
+		}
 	}
 	back := make([]byte, 0, len(got))
 	off := 0
@@ -182,6 +202,8 @@ func genC10(t *rapid.T) C10Case {
 		total += l
 	}
 	c.Inverse = rapid.SliceOfN(rapid.SampledFrom(c10Lens[1:]), 0, 5).Draw(t, "inverse")
+	c.IVSpare = rapid.SampledFrom([]int{0, 0, 16, 31, 32, 33, 48, 200}).Draw(t, "iv_spare")
+	c.PairFirst = rapid.Bool().Draw(t, "pair_first")
 	return c
 }
 
@@ -203,6 +225,12 @@ var c10Prop = pbt.Register(pbt.Prop[C10Case]{
 			}
 		}
 		labels := []string{fmt.Sprintf("keylen_%d", c.KeyLen), "via_" + c.Via}
+		if c.IVSpare >= 32 {
+			labels = append(labels, "iv_slice_with_spare_capacity")
+		}
+		if c.PairFirst {
+			labels = append(labels, "both_directions_created_from_one_iv_slice")
+		}
 		if fast && slow {
 			labels = append(labels, "mixes_fast_and_slow_path")
 		}
